@@ -153,6 +153,8 @@ def run(ctx):
             pl = FL.op_place(op)
             if pl is None:
                 return True
+            if any(isinstance(p, list) and p[0] == "f" and p[2] == "rotation" for p in pl[1]):
+                return False        # the file's /Rotate field itself, read without reduction
             seen0, dr0 = flr.back_slice([pl[0]])
             reads = False
             for dd in dr0:
